@@ -300,8 +300,14 @@ var matInplaceMethods = []matMethod{
 		m.Reduce(func(acc ad.Scalar, x ad.ConstScalar) ad.Scalar { acc.Add(acc, x); return acc }, ad.NullScalar(m.ElementType()))
 		return nil
 	}},
-	{"ResetDerivatives", true, func(e *viewEnv, m ad.Matrix, limit int) *walkResult { m.(ad.MagicMatrix).ResetDerivatives(); return nil }},
-	{"Variables", true, func(e *viewEnv, m ad.Matrix, limit int) *walkResult { m.(ad.MagicMatrix).Variables(1 + e.r.Intn(2)); return nil }},
+	{"ResetDerivatives", true, func(e *viewEnv, m ad.Matrix, limit int) *walkResult {
+		m.(ad.MagicMatrix).ResetDerivatives()
+		return nil
+	}},
+	{"Variables", true, func(e *viewEnv, m ad.Matrix, limit int) *walkResult {
+		m.(ad.MagicMatrix).Variables(1 + e.r.Intn(2))
+		return nil
+	}},
 	{"Iterator-walk", false, func(e *viewEnv, m ad.Matrix, limit int) *walkResult {
 		w := &walkResult{}
 		for it := m.Iterator(); it.Ok(); it.Next() {
@@ -367,8 +373,14 @@ var vecInplaceMethods = []vecMethod{
 		v.Reduce(func(acc ad.Scalar, x ad.ConstScalar) ad.Scalar { acc.Add(acc, x); return acc }, ad.NullScalar(v.ElementType()))
 		return nil
 	}},
-	{"ResetDerivatives", true, func(e *viewEnv, v ad.Vector, limit int) *walkResult { v.(ad.MagicVector).ResetDerivatives(); return nil }},
-	{"Variables", true, func(e *viewEnv, v ad.Vector, limit int) *walkResult { v.(ad.MagicVector).Variables(1 + e.r.Intn(2)); return nil }},
+	{"ResetDerivatives", true, func(e *viewEnv, v ad.Vector, limit int) *walkResult {
+		v.(ad.MagicVector).ResetDerivatives()
+		return nil
+	}},
+	{"Variables", true, func(e *viewEnv, v ad.Vector, limit int) *walkResult {
+		v.(ad.MagicVector).Variables(1 + e.r.Intn(2))
+		return nil
+	}},
 	{"Iterator-walk", false, func(e *viewEnv, v ad.Vector, limit int) *walkResult {
 		w := &walkResult{}
 		for it := v.Iterator(); it.Ok(); it.Next() {
